@@ -1125,8 +1125,14 @@ func (v *VMValue) AttrGet(ctx *Context, name string) *VMValue {
 			p1 := v
 			p1x := a
 
+			// 原型链可能成环 (o.__proto__ = o)，走过的字典不再走第二次，否则这里永远不会结束
+			visited := map[interface{}]bool{v.Value: true}
 			for {
 				if p1, ok = p1x.Load("__proto__"); ok && p1.TypeId == VMTypeDict {
+					if visited[p1.Value] {
+						break
+					}
+					visited[p1.Value] = true
 					var exists bool
 					p1x = (*VMDictValue)(p1)
 					ret, exists = p1x.Load(name)
